@@ -257,6 +257,37 @@ NUMBERS = [
     "0xabcdef", "0XABCDEF", "1_2_3", "9" * 40, "0." + "0" * 30 + "1", "1e308", "1e309", "1e-400", "0.1e1j",
 ]
 
+
+
+def _number_product():
+    """systematic numeric spellings (integer part x fraction x exponent x imaginary suffix), kept iff CPython accepts them"""
+    import warnings
+
+    ints = ["", "0", "1", "7", "00", "01", "09", "007", "0_0", "0_1", "1_0", "00_7", "10", "123", "0_9"]
+    fracs = ["", ".", ".0", ".5", ".0_1", ".00"]
+    exps = ["", "e1", "E+1", "e-0_1", "e01"]
+    imags = ["", "j", "J"]
+    out = []
+    for i in ints:
+        for f in fracs:
+            for e in exps:
+                for j in imags:
+                    lit = i + f + e + j
+                    if not lit or lit in (".",) or not lit[0] in "0123456789.":
+                        continue
+                    try:
+                        with warnings.catch_warnings():
+                            warnings.simplefilter("ignore")
+                            if isinstance(ast.literal_eval(lit), (int, float, complex)):
+                                out.append(lit)
+                    except (SyntaxError, ValueError):
+                        pass
+    return out
+
+
+NUMBERS_PRODUCT = _number_product()
+NUMBERS = list(dict.fromkeys(NUMBERS + NUMBERS_PRODUCT))
+
 STR_PREFIXES = ["", "r", "R", "b", "B", "u", "U", "br", "bR", "Br", "BR", "rb", "rB", "Rb", "RB"]
 QUOTES = ["'", '"', "'''", '"""']
 STR_BODIES = [
